@@ -53,6 +53,11 @@ func hostFor(work string) tsmodel.Host {
 
 var lastRes tsmodel.Result
 
+// safetyDeadline ends a run that does not end by itself (only a changed library makes an accepted script block).
+const safetyDeadline = 30 * time.Second
+
+func blockedOrBusy(msg string) *vt.Fail { return vt.BlockedOrBusy(rec, msg) }
+
 func checkScript(s tsgen.Script) *vt.Fail {
 	lastRes = tsmodel.Result{}
 	if s.Name == "" {
@@ -70,7 +75,7 @@ func checkScript(s tsgen.Script) *vt.Fail {
 	defer tskit.RemoveAll(root)
 	r := tskit.NewRecorder()
 	ext, useDir := tskit.LayoutFor(s.Bytes())
-	rr := tskit.RunInProcess(root, []tskit.ScriptFile{{Name: s.Name, Data: s.Bytes(), Ext: ext}}, tskit.RunOpts{Params: paramsFor(s.P, r), Retain: true, Deadline: 3 * time.Minute, UseDir: useDir})
+	rr := tskit.RunInProcess(root, []tskit.ScriptFile{{Name: s.Name, Data: s.Bytes(), Ext: ext}}, tskit.RunOpts{Params: paramsFor(s.P, r), Retain: true, Deadline: safetyDeadline, UseDir: useDir})
 	work := filepath.Join(rr.WorkRoot, "script-"+s.Name)
 	m := tsmodel.New(s.P, hostFor(work), s.Files)
 	want := m.Run(s.Text)
@@ -83,6 +88,13 @@ func checkScript(s tsgen.Script) *vt.Fail {
 	}
 	sub := rr.Subs[0]
 	ctx := fmt.Sprintf("\nscript:\n%s\nlog:\n%s", numbered(s.Text), trunc(sub.Log, 1500))
+	if strings.Contains(sub.Log, "test timed out while running command") {
+		// the reference interpreter only accepts scripts that end by themselves within milliseconds
+		if f := blockedOrBusy("the script sat in a command until the harness's safety deadline (" + safetyDeadline.String() + ") interrupted it" + ctx); f != nil {
+			return f
+		}
+		return nil
+	}
 	if sub.Verdict == "panic" {
 		return vt.Failf("panic-escaped-runt", "a panic escaped the script run: %s%s", sub.Panic, ctx)
 	}
@@ -379,7 +391,14 @@ func checkCLI(c cliCase) *vt.Fail {
 	var out bytes.Buffer
 	cmd.Stdout = &out
 	cmd.Stderr = &out
-	err := cmd.Run()
+	if err := cmd.Start(); err != nil {
+		rec.Infra("cannot run the testscript command: %v", err)
+		return nil
+	}
+	killed := false
+	timer := time.AfterFunc(safetyDeadline, func() { killed = true; cmd.Process.Kill() })
+	err := cmd.Wait()
+	timer.Stop()
 	code := 0
 	if err != nil {
 		if ee, ok := err.(*exec.ExitError); ok {
@@ -388,6 +407,9 @@ func checkCLI(c cliCase) *vt.Fail {
 			rec.Infra("cannot run the testscript command: %v", err)
 			return nil
 		}
+	}
+	if killed {
+		return blockedOrBusy(fmt.Sprintf("the testscript command did not end within %v on scripts that end by themselves; predictions %v\noutput:\n%s", safetyDeadline, preds, trunc(out.String(), 1500)))
 	}
 	var texts []string
 	for i, s := range c.Scripts {
@@ -433,6 +455,6 @@ func TestCLI(t *testing.T) {
 	}}, vt.N(15, 250))
 }
 
-var replayers = vt.Replayer{"script": vt.Decode(checkScript), "cli": vt.Decode(checkCLI)}
+var replayers = vt.Replayer{"script": vt.Decode(checkScript), "cli": vt.Decode(checkCLI), "gotest": vt.Decode(checkGoTest)}
 
 func TestReplay(t *testing.T) { vt.Replay(t, rec, replayers) }
